@@ -427,106 +427,80 @@ def check_actions(repo, rep):
     if pb is None or pu is None:
         raise AnalysisError('anchor vanished: p_binary / p_unary')
 
-    def sub_index(n, var='p'):
-        if isinstance(n, ast.Subscript) and isinstance(n.value, ast.Name) \
-                and n.value.id == var and isinstance(n.slice, ast.Constant):
-            return n.slice.value
-        return None
+    from sa import absint
+    EXP = 'yaql.language.expressions'
 
-    def alias_index(fi, name_node):
-        """alias = this._aliases.get(p.slice[k].type) -> k"""
-        if not isinstance(name_node, ast.Name):
+    def run(fi, items, types, aliases):
+        built = []
+
+        def oracle(name, args, kwargs):
+            if name in (EXP + ':BinaryOperator', EXP + '.BinaryOperator',
+                        EXP + ':UnaryOperator', EXP + '.UnaryOperator'):
+                built.append((name.replace(':', '.').rsplit('.', 1)[1],
+                              list(args)))
+                return (absint.Sym('node'),)
             return None
-        res = set()
-        scope = name_node
-        # reaching assignment in the same branch: nearest preceding Assign
-        for st in ast.walk(fi.node):
-            if isinstance(st, ast.Assign) and len(st.targets) == 1 and \
-                    isinstance(st.targets[0], ast.Name) and \
-                    st.targets[0].id == name_node.id and \
-                    same_block(st, name_node):
-                for n in ast.walk(st.value):
-                    if isinstance(n, ast.Attribute) and n.attr == 'type' and \
-                            isinstance(n.value, ast.Subscript) and isinstance(
-                                n.value.value, ast.Attribute) and \
-                            n.value.value.attr == 'slice' and isinstance(
-                                n.value.slice, ast.Constant):
-                        res.add(n.value.slice.value)
-        return res.pop() if len(res) == 1 else None
+        pobj = absint.Obj(
+            'p', __items__=list(items),
+            slice=[None if t is None else absint.Obj('sym', type=t)
+                   for t in types])
+        this = absint.Obj('this', _aliases=dict(aliases))
+        ops = absint.Obj('table', operators={'-': ('-',), '!': ('!',),
+                                              '+': ('+',)})
+        it = absint.Interp(repo, mod, oracle, follow=False)
+        ps = fi.params()
+        args = {ps[-1]: pobj}
+        if len(ps) > 1:
+            args[ps[0]] = this
+        cenv = {gen.params()[1]: ops, gen.params()[2]: absint.Obj('engine')}
+        try:
+            out = it.run(fi.node, args, cenv)
+        except absint.Unsupported as e:
+            raise AnalysisError('R02e: %s uses a construct outside the '
+                                'modelled fragment (%s)' % (fi.name, e))
+        return out, built, pobj.attrs['__items__'][0]
 
-    def same_block(a, b):
-        """Is statement `a` in the statement list that (transitively)
-        contains `b`?"""
-        pa = getattr(a, '_parent', None)
-        lst = None
-        for field in ('body', 'orelse', 'finalbody'):
-            v = getattr(pa, field, None)
-            if isinstance(v, list) and any(x is a for x in v):
-                lst = v
-        if lst is None:
-            return False
-        n = b
-        while n is not None:
-            if any(x is n for x in lst):
-                return True
-            n = getattr(n, '_parent', None)
-        return False
-
-    calls = [c for c in model.calls_in(pb.node) if repo.resolve(
-        mod, c.func, model.scope_locals(pb)) ==
-        'yaql.language.expressions.BinaryOperator']
-    rep.ob('R02e', 'yaql.language.parser:p_binary/constructs-node',
-           len(calls) == 1, 'p_binary must build exactly one BinaryOperator')
-    for c in calls:
-        idx = [sub_index(a) for a in c.args[:3]]
-        ai = alias_index(pb, c.args[3]) if len(c.args) > 3 else None
-        rep.ob('R02e', 'yaql.language.parser:p_binary/operands',
-               idx == [2, 1, 3] and ai == 2,
-               'production is value OP value: node must be '
-               'BinaryOperator(p[2], p[1], p[3], alias-of slice[2]); found '
-               'indices %s alias-slice %s' % (idx, ai),
-               loc=mod.loc(c), construct=model.norm(c))
-    ucalls = [c for c in model.calls_in(pu.node) if repo.resolve(
-        mod, c.func, model.scope_locals(pu)) ==
-        'yaql.language.expressions.UnaryOperator']
-    rep.ob('R02e', 'yaql.language.parser:p_unary/constructs-node',
-           len(ucalls) >= 1, 'p_unary must build UnaryOperator nodes')
-    for c in ucalls:
-        idx = [sub_index(a) for a in c.args[:2]]
-        ai = alias_index(pu, c.args[2]) if len(c.args) > 2 else None
-        # which branch: the guarding test `p[k] in <operators>`
-        br = None
-        n = c
-        while n is not None and n is not pu.node:
-            p = getattr(n, '_parent', None)
-            if isinstance(p, ast.If) and isinstance(p.test, ast.Compare) and \
-                    len(p.test.ops) == 1 and isinstance(
-                        p.test.ops[0], ast.In):
-                k = sub_index(p.test.left)
-                if k is not None:
-                    if any(n is s for s in p.body):
-                        br = ('in', k)
-                    else:
-                        br = ('notin', k)
-                    break
-            n = p
-        if br is None:
-            rep.ob('R02e', 'yaql.language.parser:p_unary/branch', False,
-                   'UnaryOperator construction not under a `p[k] in '
-                   'operators` test', loc=mod.loc(c),
-                   construct=model.norm(c))
+    L, R, V = absint.Sym('left'), absint.Sym('right'), absint.Sym('operand')
+    out, built, p0 = run(pb, [None, L, '+', R],
+                         [None, 'value', 'OP_B', 'value'],
+                         {'OP_B': 'alias-of-OP_B', 'value': 'wrong'})
+    ok = len(built) == 1 and built[0][0] == 'BinaryOperator'
+    rep.ob('R02e', 'yaql.language.parser:p_binary/constructs-node', ok,
+           'p_binary must build exactly one BinaryOperator (built: %s)' %
+           [b[0] for b in built], loc=mod.loc(pb.node))
+    if ok:
+        a = built[0][1]
+        good = len(a) >= 4 and a[0] == '+' and a[1] is L and a[2] is R and \
+            a[3] == 'alias-of-OP_B' and isinstance(p0, absint.Sym)
+        rep.ob('R02e', 'yaql.language.parser:p_binary/operands', good,
+               'production is value OP value: the node must be '
+               'BinaryOperator(<operator text>, <left>, <right>, <alias of '
+               'the operator token>) and become p[0]; built %r, p[0]=%r' % (
+                   a, p0), loc=mod.loc(pb.node))
+    for label, items, types, op in (
+            ('prefix', [None, '-', V], [None, 'OP_U', 'value'], '-'),
+            ('suffix', [None, V, '!'], [None, 'value', 'OP_S'], '!')):
+        out, built, p0 = run(pu, items, types,
+                             {'OP_U': 'alias-of-OP_U',
+                              'OP_S': 'alias-of-OP_S', 'value': 'wrong'})
+        ok = len(built) == 1 and built[0][0] == 'UnaryOperator'
+        rep.ob('R02e', 'yaql.language.parser:p_unary/constructs-node[%s]' %
+               label, ok, 'p_unary must build exactly one UnaryOperator '
+               'for a %s operator (built: %s)' % (
+                   label, [b[0] for b in built]), loc=mod.loc(pu.node))
+        if not ok:
             continue
-        if br[0] == 'in':
-            opi = br[1]
-        else:
-            opi = 3 - br[1]
-        vali = 3 - opi
-        rep.ob('R02e', 'yaql.language.parser:p_unary/operands[%s p[%d]]' % (
-            br[0], br[1]), idx == [opi, vali] and ai == opi,
-            'operator is p[%d] on this branch: node must be '
-            'UnaryOperator(p[%d], p[%d], alias-of slice[%d]); found %s '
-            'alias-slice %s' % (opi, opi, vali, opi, idx, ai),
-            loc=mod.loc(c), construct=model.norm(c))
+        a = built[0][1]
+        want_alias = 'alias-of-OP_U' if label == 'prefix' else \
+            'alias-of-OP_S'
+        good = len(a) >= 3 and a[0] == op and a[1] is V and \
+            a[2] == want_alias and isinstance(p0, absint.Sym)
+        rep.ob('R02e', 'yaql.language.parser:p_unary/operands[%s]' % label,
+               good,
+               'for a %s operator the node must be UnaryOperator(<operator '
+               'text>, <operand>, <alias of the operator token>) and '
+               'become p[0]; built %r, p[0]=%r' % (label, a, p0),
+               loc=mod.loc(pu.node))
 
 
 def cross_read_default(repo, rep):
